@@ -579,6 +579,12 @@ func deriveTripCount(loop *Loop) {
 	// A start or limit computed in a narrow type (c := uint8(3); i < c-5) is evaluated here without
 	// wrapping: a value outside the counter's type is not the value the loop compares with.
 	if lo, hi, ok := intRange(iv.Phi.Type()); ok {
+		// ... and one that is arithmetic on a value not known here (i < n-5, i := n+100 on a uint8 n)
+		// wraps for some arguments; in a 64-bit type that takes values nobody loops over.
+		if hi.BitLen() < 63 && (hasArithmetic(iv.Start) || hasArithmetic(limitSCEV)) {
+			loop.TripCount = &SCEVUnknown{Value: nil}
+			return
+		}
 		for _, c := range []*big.Int{startC, limitC} {
 			if c != nil && (c.Cmp(lo) < 0 || c.Cmp(hi) > 0) {
 				loop.TripCount = &SCEVUnknown{Value: nil}
@@ -888,4 +894,25 @@ func SCEVFromConst(c *ssa.Const) SCEV {
 
 func foldSCEV(op token.Token, left, right SCEV, loop *Loop) SCEV {
 	return &SCEVGenericExpr{Op: op, X: left, Y: right}
+}
+
+// hasArithmetic reports whether s computes something (+, -, *, <<) from a value that is not a
+// constant: in a narrow integer type such an expression can wrap around.
+func hasArithmetic(s SCEV) bool {
+	switch e := s.(type) {
+	case *SCEVGenericExpr:
+		if e.EvaluateAt(nil, nil) != nil {
+			return false // all constants: the value itself is range-checked
+		}
+		switch e.Op {
+		case token.ADD, token.SUB, token.MUL, token.SHL:
+			return true
+		}
+		return hasArithmetic(e.X) || hasArithmetic(e.Y)
+	case *SCEVMax:
+		return hasArithmetic(e.X) || hasArithmetic(e.Y)
+	case *SCEVAddRec:
+		return true
+	}
+	return false
 }
